@@ -69,6 +69,17 @@ theorem forLoop_inv {σ : Type} (n : Nat) (body : Nat → σ → Bool × σ) (P 
       exact ih (i + 1) (body i s).2 (by omega) (hstep i s (Nat.le_refl _) hlt h0 hb')
         (fun j t hj => hstep j t (by omega)) (by omega)
 
+/-- the same as a case rule: prove `Q` of the loop's result from the two ways a loop can end -/
+theorem forLoop_cases {σ : Type} (n : Nat) (body : Nat → σ → Bool × σ) (P : Nat → σ → Prop) (i : Nat) (s : σ)
+    (hi : i ≤ n) (h0 : P i s)
+    (hstep : ∀ j t, i ≤ j → j < n → P j t → (body j t).1 = false → P (j + 1) (body j t).2)
+    (Q : Nat × σ → Prop) (hA : ∀ t, P n t → Q (n, t))
+    (hB : ∀ j t, j < n → P j t → (body j t).1 = true → Q (j, (body j t).2)) : Q (forLoop n body i s) := by
+  rcases forLoop_inv n body P i s hi h0 hstep with ⟨h1, h2⟩ | ⟨j, t, hj, hP, hb, he⟩
+  · have : forLoop n body i s = (n, (forLoop n body i s).2) := Prod.ext h1 rfl
+    rw [this]; exact hA _ h2
+  · rw [he]; exact hB j t hj hP hb
+
 /-- a loop without `break` runs to the end -/
 theorem forLoop_nobreak {σ : Type} (n : Nat) (body : Nat → σ → Bool × σ) (P : Nat → σ → Prop) (i : Nat) (s : σ)
     (hi : i ≤ n) (h0 : P i s) (hnb : ∀ j t, (body j t).1 = false)
